@@ -809,6 +809,15 @@ impl SimWorker {
         process_worker_message(&mut state, message)
     }
 
+    /// Lets `d` of the worker's lifetime pass: the worker measures its age against the real
+    /// clock (`remaining_time`), the harness moves the start of its life back instead.
+    pub fn age_by(&self, d: Duration) {
+        let mut state = self.state_ref.get_mut();
+        if let Some(t) = state.start_time.checked_sub(d) {
+            state.start_time = t;
+        }
+    }
+
     pub fn snapshot(&self) -> WorkerSnapshot {
         let state = self.state_ref.get();
         let (pools, concise) =
